@@ -3,6 +3,7 @@ package props
 import (
 	"encoding/json"
 	"fmt"
+	"io"
 	"os"
 	"os/exec"
 	"path/filepath"
@@ -276,6 +277,10 @@ func c12EDISchema(ds []*ref.HDecl) string {
 		`]},"transform_declarations":{"FINAL_OUTPUT":{"object":{}}}}`
 }
 
+type readerFunc func(p []byte) (int, error)
+
+func (f readerFunc) Read(p []byte) (int, error) { return f(p) }
+
 // c12Labels are the kinds of node a pass of the search creates: (node type, format)
 type c12Label struct{ typ, format int }
 
@@ -536,7 +541,7 @@ func init() {
 	core.Register(&core.Prop{
 		ID:    "C12",
 		Level: "model_checking",
-		Rule:  "E1: breadth-first search (one pass per label set) over all histories of CreateNode (element node in plain / XML / JSON format; second pass: plain node of type document / element / text / attribute; pool answer newest / fresh / oldest) . AddChild(any live node, any detached root) . RemoveAndReleaseTree(any live node) with at most 5 live nodes, deduplicated by canonical state (sorted forest shapes + pool size); after every operation the real links are compared with a slice-based mirror model, fresh nodes must be blank, pooled nodes reset and never live or duplicated, IDs never repeat (states and transitions counted). E2: every tree delivered through the Transform by all seven readers on corpus inputs and token strings is audited (links, acyclicity, pool membership) at every record and after the terminal result, also through the bare FormatReader whose caller never calls Release and calls Read twice more after the terminal result; a node released twice is caught by the shim pool; E2c: the csv2 / fixedlength2 hierarchy reader on every declaration hierarchy of up to 2 declarations and the EDI reader on every hierarchy of up to 3 (groups, nesting, (min,max) incl. min 2, every target position) x every line sequence up to 3 (thorough 4); E2b: the XML and JSON stream readers on every document of up to 3 (thorough 4) nodes x 19 / 18 target xpaths (the document root itself with accepting / rejecting filters, children, descendants, nested candidates). E3: 2-3 threads each running a private create/add/remove history under the cooperative scheduler at every pool/atomic operation, preemption bound 2 (all schedules), plus a free-running -race pass of the same bodies",
+		Rule:  "E1: breadth-first search (one pass per label set) over all histories of CreateNode (element node in plain / XML / JSON format; second pass: plain node of type document / element / text / attribute; pool answer newest / fresh / oldest) . AddChild(any live node, any detached root) . RemoveAndReleaseTree(any live node) with at most 5 live nodes, deduplicated by canonical state (sorted forest shapes + pool size); after every operation the real links are compared with a slice-based mirror model, fresh nodes must be blank, pooled nodes reset and never live or duplicated, IDs never repeat (states and transitions counted). E2: every tree delivered through the Transform by all seven readers on corpus inputs and token strings is audited (links, acyclicity, pool membership) at every record and after the terminal result, also through the bare FormatReader whose caller never calls Release and calls Read twice more after the terminal result; a node released twice is caught by the shim pool; E2c: the csv2 / fixedlength2 hierarchy reader on every declaration hierarchy of up to 2 declarations and the EDI reader on every hierarchy of up to 3 (groups, nesting, (min,max) incl. min 2, every target position) x every line sequence up to 3 (thorough 4); E2b: the XML and JSON stream readers on every document of up to 3 (thorough 4) nodes x 19 / 18 target xpaths (the document root itself with accepting / rejecting filters, children, descendants, nested candidates). E2d: both stream readers over an input reader that fails twice at byte k (every k) and then carries on: the reader's cursor and candidate stay nodes of its own live tree. E3: 2-3 threads each running a private create/add/remove history under the cooperative scheduler at every pool/atomic operation, preemption bound 2 (all schedules), plus a free-running -race pass of the same bodies",
 		Assumptions: []string{
 			"the shim pool (vsync.Pool: LIFO free list with a choice of newest/fresh/oldest on Get) models sync.Pool's freedom to keep, drop and reorder cached objects; the free-running pass uses the real sync.Pool",
 			"the -race pass is not exhaustive over schedules; it relies on the detector's happens-before analysis (exhaustive:false for that part)",
@@ -830,6 +835,105 @@ func c12Run(c *core.Ctx) {
 			})
 			if stop {
 				return
+			}
+		}
+	}
+	// E2d: the two stream readers over an input reader that fails twice in a row at byte k (for every k) and
+	// then carries on: whatever the reader does with the failure, after every Read its cursor ('cur') and
+	// its candidate ('stream') are nodes of its own live tree - never a node it has released
+	{
+		type faulty struct {
+			data  string
+			at    int
+			pos   int
+			fails int
+		}
+		readFaulty := func(f *faulty, p []byte) (int, error) {
+			if f.pos >= f.at && f.fails < 2 {
+				f.fails++
+				return 0, fmt.Errorf("transient failure %d", f.fails)
+			}
+			if f.pos >= len(f.data) {
+				return 0, io.EOF
+			}
+			end := len(f.data)
+			if f.fails == 0 && f.at < end {
+				end = f.at
+			}
+			n := copy(p, f.data[f.pos:end])
+			f.pos += n
+			return n, nil
+		}
+		docs := map[string][]string{
+			"json": {`{"recs":[{"a":1,"b":{"c":[1,2,3]},"d":"x"},{"a":2,"b":{"c":[]},"d":"y"}]}`, `[[1,[2,3]],{"a":{"b":[4]}},5]`},
+			"xml":  {`<r><o k="1"><a>1</a><b><c>2</c></b></o><o><a>3</a></o></r>`},
+		}
+		xps := map[string][]string{"json": {"/recs/*", "/*", "/recs/*[a=2]", "//b"}, "xml": {"/r/o", "/r/o[a='3']", "//b"}}
+		for _, format := range []string{"json", "xml"} {
+			for _, doc := range docs[format] {
+				for _, xp := range xps[format] {
+					for at := 0; at <= len(doc); at++ {
+						idx++
+						if !c.Mine(idx) {
+							continue
+						}
+						cs := c12Case{E2: &c01E2Case{Item: "stream-with-transient-failure/" + format + "/" + xp, Input: doc, Variant: at}}
+						c.Begin(func() interface{} { return cs })
+						idr.VerifSetNodeCaching(true)
+						idr.VerifResetNodePool()
+						vsync.PoolChoice = nil
+						f := &faulty{data: doc, at: at}
+						rd := readerFunc(func(p []byte) (int, error) { return readFaulty(f, p) })
+						var sr interface {
+							Read() (*idr.Node, error)
+						}
+						var err error
+						if format == "json" {
+							sr, err = idr.NewJSONStreamReader(rd, xp)
+						} else {
+							sr, err = idr.NewXMLStreamReader(rd, xp)
+						}
+						if err != nil {
+							continue
+						}
+						c.Count("E2d_faulted_stream_runs", 1)
+						c.Eval("E2d|" + format)
+						problem := ""
+						pv, site := core.Safe(func() {
+							for i := 0; i < 12 && problem == ""; i++ {
+								_, rerr := sr.Read()
+								root := unexportedNode(sr, "root")
+								for _, field := range []string{"cur", "stream"} {
+									n := unexportedNode(sr, field)
+									if n == nil {
+										continue
+									}
+									if nodePool() != nil && nodePool().Contains(n) {
+										problem = fmt.Sprintf("after Read #%d (%v) the reader's '%s' is a node it has released (it is in the node pool)", i+1, rerr, field)
+										break
+									}
+									top := n
+									for top.Parent != nil {
+										top = top.Parent
+									}
+									if root != nil && top != root {
+										problem = fmt.Sprintf("after Read #%d (%v) the reader's '%s' is not in its tree any more", i+1, rerr, field)
+										break
+									}
+								}
+								if rerr == io.EOF {
+									break
+								}
+							}
+						})
+						if pv != nil {
+							problem = fmt.Sprintf("panic %v @ %s", pv, site)
+						}
+						if problem != "" {
+							c.Violation("E2d:reader-keeps-a-released-node:"+format, fmt.Sprintf("%s target %s, input reader failing twice at byte %d of %q then carrying on: %s", format, xp, at, doc, problem), cs, nil)
+						}
+					}
+				}
 			}
 		}
 	}
